@@ -7,11 +7,30 @@
    regenerated from /repo on every run, so every statement below is re-checked against the methods that
    exist now.  Spec: Spec/Context.v ([spec_value] = explicit, else innermost context that sets it, else
    default; [declared_wires] = what each method's commands must carry). *)
+(* NOT COVERED BY A THEOREM (judged by the harness only, or out of the model's domain):
+   - commands on paths other than the one taken against the fake machine of the harness (allocation failure,
+     retries of load_application, IOBUF chains, non-empty P2P tables); in particular the commands that
+     discover_connections / get_system_info issue after the first read (get_ip_address, the probes):
+     discover_step models the resulting STATE only, with "connection kept?" given per Ethernet chip;
+   - prescription items marked any_number (count_cores_in_state, wait_for_cores_to_reach_state, the optional
+     clearing after sdram_alloc, the count/start commands of load_application) also match ZERO commands: the
+     theorem says every command sent is as prescribed, not how many are sent (the model sends one per state;
+     the correspondence run compares the exact number); fill / clear_memory prescribe no command number;
+   - machine dimensions are assumed positive: Coq's `x mod 0 = x` where Python raises ZeroDivisionError
+     (C18_rediscovery_uses_current_dimensions and the board theorems carry the hypothesis);
+   - a `board` given as a list (unhashable) to a BMP method that looks it up unchanged (read_adc, ...) is a
+     TypeError in Python; the model's VSeq does not distinguish list from tuple and falls back to the frame;
+   - update_current_context / Context.update applied to a kept Context object that is on the stack more than
+     once or not innermost (aliasing); the (255, 255) pseudo-address: which connection it selects is modelled
+     literally, no claim is made;
+   - for get_processor_status, get_iobuf*, read/write_vcpu_struct_field the core of the internal reads is the
+     one the INNER call resolves (context p, else 0), not the caller's p (see C18_nested_core_instance). *)
 From Coq Require Import ZArith List Bool String.
 Require Import Rig.Model.Base Rig.Generated.GenSignatures Rig.Generated.GenCtxGeometry Rig.Model.Context
                Rig.Generated.GenContextShape
                Rig.Spec.Context Rig.Proofs.Context Rig.Proofs.ContextBlocks Rig.Proofs.ContextWire
-               Rig.Proofs.ContextStop Rig.Proofs.ContextDeepen.
+               Rig.Proofs.ContextStop Rig.Proofs.ContextDeepen
+               Rig.Generated.GenBoardTables Rig.Generated.GenBoard Rig.Spec.Board Rig.Proofs.ContextBoard.
 Import ListNotations.
 Open Scope string_scope.
 Open Scope list_scope.
@@ -93,7 +112,9 @@ Theorem C18_application_stop :
          = (evb ++ [EvStop ([stop_wire k a], if intr then Some IntrErr else None)], s, rb || intr).
 Proof. exact application_stop. Qed.
 
-(* ---- connection_choice.  MachineController: the connection of the board holding the target when the
+(* ---- connection_choice.  (These two restate the code's lookup; what the looked-up chip IS -- the Ethernet chip
+   of the target's board -- is C18_connection_is_that_of_the_board below, via C19.)
+   MachineController: the connection of the board holding the target when the
    geometry is known and that board's Ethernet chip has a connection, else the initial connection (0).
    BMPController: the board's own connection, else the frame's; if neither exists nothing is sent. *)
 Theorem C18_connection_choice_chip :
@@ -241,6 +262,7 @@ Proof. exact discover_new_are_kept. Qed.
 
 Theorem C18_rediscovery_uses_current_dimensions :
   forall m c x y,
+    0 < dm_w m -> 0 < dm_h m ->
     exists rx ry, c_root (discover_step m c) = Some (rx, ry) /\
       mc_get_connection (discover_step m c) (VInt x) (VInt y)
       = Some (match cassoc (c18_local_eth_coord x y (dm_w m) (dm_h m) rx ry) (c_conns (discover_step m c)) with
@@ -282,3 +304,40 @@ Example C18_refused_instance :
       EvStop ([stop_wire 3 (VInt 17)], None)],
      [[("app_id", VInt 66)]], false).
 Proof. exact ex_refused_instance. Qed.
+
+(* ---- "the connection of the board that holds the target", geometrically.  The kernel _get_connection calls
+   (translated into Generated/GenCtxGeometry.v over C18's dump of the table) is the very function C19's theorems
+   are about (Generated/GenBoard.v over GenBoardTables.v) ... *)
+Theorem C18_local_eth_kernels_equal :
+  forall x y w h rx ry, c18_local_eth_coord x y w h rx ry = spinn5_local_eth_coord_k x y w h rx ry.
+Proof. exact local_eth_kernels_equal. Qed.
+
+(* ... so, using C19's local_eth_is_board_eth: on a torus machine whose geometry is known, a command for a chip
+   of the machine leaves by the connection of THE Ethernet chip e of the board holding it (e in the machine, an
+   Ethernet chip of the tiling anchored at the root, the target on its board around the torus, unique) when a
+   connection to e is known, else by the initial connection 0. *)
+Theorem C18_connection_is_that_of_the_board :
+  forall c w h rx ry x y k,
+    c_width c = Some w -> c_height c = Some h -> c_root c = Some (rx, ry) ->
+    full_torus w h -> in_machine w h (x, y) ->
+    mc_get_connection c (VInt x) (VInt y) = Some k ->
+    exists e, in_machine w h e /\ is_eth (rx, ry) e /\ on_board_torus w h e (x, y)
+              /\ (forall e', in_machine w h e' -> is_eth (rx, ry) e' -> on_board_torus w h e' (x, y) -> e' = e)
+              /\ match cassoc e (c_conns c) with Some k' => k = k' | None => k = 0 end.
+Proof. exact connection_is_that_of_the_board. Qed.
+
+Theorem C18_rediscovered_connection_is_that_of_the_board :
+  forall m c rx ry x y k,
+    full_torus (dm_w m) (dm_h m) -> in_machine (dm_w m) (dm_h m) (x, y) ->
+    c_root (discover_step m c) = Some (rx, ry) ->
+    mc_get_connection (discover_step m c) (VInt x) (VInt y) = Some k ->
+    exists e, in_machine (dm_w m) (dm_h m) e /\ is_eth (rx, ry) e /\ on_board_torus (dm_w m) (dm_h m) e (x, y)
+              /\ (forall e', in_machine (dm_w m) (dm_h m) e' -> is_eth (rx, ry) e' ->
+                             on_board_torus (dm_w m) (dm_h m) e' (x, y) -> e' = e)
+              /\ match cassoc e (c_conns (discover_step m c)) with Some k' => k = k' | None => k = 0 end.
+Proof. exact rediscovered_connection_is_that_of_the_board. Qed.
+
+Example C18_board_instance :
+  full_torus 24 12 /\ in_machine 24 12 (0, 4)
+  /\ mc_get_connection (MkCtl (Some 24) (Some 12) (Some (0, 0)) [((8, 4), 3); ((20, 4), 5)] []) (VInt 0) (VInt 4) = Some 5.
+Proof. exact ex_board_instance. Qed.
